@@ -376,7 +376,7 @@ def toEvs (s : S) (ws : List String) : S × List Ev :=
 def verdicts (evs : List Ev) : List (String × Option String) :=
   [("C01", Ivy.Mon.C01.verdict evs), ("C02", Ivy.Mon.C02.verdict evs), ("C03", Ivy.Mon.C03.verdict evs),
    ("C04", Ivy.Mon.C04.verdict evs), ("C06", Ivy.Mon.C06.verdict evs), ("C07", Ivy.Mon.C07.verdict evs),
-   ("C07spin", Ivy.Mon.C07.spin4Verdict evs), ("C07idle", Ivy.L1.Progress.idleVerdict evs), ("C08", Ivy.Mon.C08.verdict evs)]
+   ("C07spin", Ivy.Mon.C07.spin4Verdict evs), ("C07tmo", Ivy.Mon.C07.tmoVerdict evs), ("C07idle", Ivy.L1.Progress.idleVerdict evs), ("C08", Ivy.Mon.C08.verdict evs)]
 
 def stepAll (s : S) (ws : List String) : S × List String :=
   -- `cycle` tore the loop down and initialised it again: the theorems (and so the monitors) are about ONE execution from the
